@@ -338,10 +338,13 @@ def h_fields(ctx):
     oa = ctx.choose("order:A", PERMS[2], free=True)
     ob = ctx.choose("order:B", PERMS[3], free=True)
     swap = ctx.choose("first-input", ("A", "B"), free=True)
+    # heterogeneous columns: both files have ensemble members, but only A stores the probability for threshold 5 and the 0.9 quantile;
+    # what a file stores is what is used for that file, whatever the other files contain
+    hetero = ctx.choose("B-derives-p5-and-q0.9-from-its-members", (False, True), free=True)
     locs = gen.std_locs(2, seed)
     times = [T0, T0 + DAY]
     inputs = []
-    for name, thr, qs, perm, salt in (("A", THR_A, Q_A, oa, 1), ("B", THR_B, Q_B, ob, 2)):
+    for name, thr, qs, perm, salt in (("A", THR_A, Q_A, oa, 1), ("B", (1.0, 3.0) if hetero else THR_B, (0.1, 0.5) if hetero else Q_B, ob[:2] if hetero and max(ob[:2]) < 2 else ((0, 1) if hetero else ob), 2)):
         ai = gen.AInput(name, times, [0.0, 6.0], locs)
         ai.keep_field_order = True
         scrambled(ai, ["obs", "fcst"], values(seed), salt)
@@ -355,6 +358,9 @@ def h_fields(ctx):
                     d[pos] = base / 128.0 if kind_ == "p" else base / 4.0
                 ai.fields["%s%s" % (kind_, gen.fmt_num(lv))] = d
                 k += 1
+        if hetero:
+            for m_ in range(3):
+                ai.fields["e%d" % m_] = {pos: float((salt * 3 + n_ * 5 + m_ * 7) % 11) for n_, pos in enumerate(ai.positions())}
         inputs.append(ai)
     if swap == "B":
         inputs = inputs[::-1]
@@ -366,11 +372,13 @@ def h_fields(ctx):
     def close_list(got, exp):       # NetCDF stores the levels in single precision
         got = [float(x) for x in got]
         return len(got) == len(exp) and all(abs(a - b) < 1e-6 for a, b in zip(got, exp))
-    ctx.require(close_list(data.thresholds, [1.0, 5.0]), "fields:common-thresholds", actual=[float(x) for x in data.thresholds])
-    ctx.require(close_list(data.quantiles, [0.1, 0.9]), "fields:common-quantiles", actual=[float(x) for x in data.quantiles])
+    ctx.require(close_list(data.thresholds, [1.0] if hetero else [1.0, 5.0]), "fields:common-thresholds", actual=[float(x) for x in data.thresholds])
+    ctx.require(close_list(data.quantiles, [0.1] if hetero else [0.1, 0.9]), "fields:common-quantiles", actual=[float(x) for x in data.quantiles])
+    if hetero:
+        ctx.flag("heterogeneous")
     roles = [[("p", 1.0)], [("p", 5.0)], ["obs", ("p", 5.0)], [("p", 5.0), ("p", 1.0)], [("q", 0.1)], [("q", 0.9)], ["obs", ("q", 0.9), ("q", 0.1)]]
     sig = CD.check_requests(ctx, data, ref, roles, ["all", "no", "location"], "fields")
-    ctx.observe((oa, ob, swap, sig))
+    ctx.observe((oa, ob, swap, hetero, sig))
     ctx.outcome("via=%s" % via)
     nat = oa == (0, 1) and ob == (0, 1, 2)
     if not nat:
